@@ -21,7 +21,8 @@ CONSTANTS Modes, MediaSets, Bundles, Muxes, Ices, Latchings, Compats, Offerers, 
 DeviationNames == {"SdesBeforeLocalAnswer",   \* Srtp answerer installs SDES keys before its own answer exists
                    "EqualRoles",              \* both sides take the same DTLS role
                    "SctpNeedsStoredRemote",   \* SCTP is only created if the remote description is already stored
-                   "RenegRestartsTransport"}  \* a second offer/answer round tears the transports down
+                   "RenegRestartsTransport",  \* a second offer/answer round tears the transports down
+                   "StaleRemoteAfterMove"}    \* a latched remote address is kept when a later description moves it
 
 Sides == {"A", "B"}
 Other(s) == IF s = "A" THEN "B" ELSE "A"
@@ -34,7 +35,9 @@ Lattice == [mode : Modes, media : MediaSets, bundle : Bundles, muxA : Muxes, mux
             latchingA : Latchings, latchingB : Latchings, compatA : Compats, compatB : Compats,
             offerer : Offerers, sched : Scheds, reneg : Renegs]
 
-\* reneg: who starts a second offer/answer round once the connection is up and has delivered ("none": nobody)
+\* reneg: who starts a second offer/answer round once the connection is up and has delivered ("none": nobody);
+\* "moved": the offering endpoint is replaced by a fresh one with the same configuration (a moved / restarted SIP
+\* endpoint: every transport address in its description is new), which re-INVITEs the peer
 
 \* only what the configuration API documents as meaningful together
 Compatible(c) ==
@@ -47,6 +50,8 @@ Compatible(c) ==
           /\ c.ice = "full"                       \* no ICE agent in the direct modes
           /\ (c.mode = "Srtp" => (c.latchingA = FALSE /\ c.latchingB = FALSE))
           /\ c.sched = "plain"
+    \* a fresh endpoint can take over only where the media path carries no per-connection secrets or ICE state
+    /\ (c.reneg = "moved") => c.mode = "Rtp"
     \* (ICE values are pairs that have a common transport: never lite on both sides; ICE-TCP needs one active and one
     \*  passive side, and passive candidates exist only where a tcp_port_range is configured; an endpoint with ICE-TCP
     \*  disabled gathers UDP only, so it cannot reach a TCP-only peer - those pairs are not in Ices)
@@ -71,6 +76,9 @@ HasMedia == cfg.media \cap {"audio", "video"} # {}
 IsWeb == cfg.mode = "WebRtc"
 Off == cfg.offerer
 Ans == Other(cfg.offerer)
+\* the side that starts the second offer/answer round, and the other one
+RSide == IF cfg.reneg \in {"offerer", "moved"} THEN Off ELSE Ans
+OSide == Other(RSide)
 
 Init ==
     /\ cfg \in {c \in Lattice : Compatible(c)}
@@ -195,6 +203,10 @@ RtpDelivered(s) ==
     /\ HasMedia /\ peer["A"] = "Connected" /\ peer["B"] = "Connected" /\ ~rtpGot[s]
     /\ keys[Other(s)].tx = keys[s].rx
     /\ (cfg.mode # "Rtp") => keys[s].rx # 0
+    \* after the peer has moved, the packets for it go to the addresses of its latest description - also where
+    \* the sender had latched onto the source of the packets it received in the first round
+    /\ ~("StaleRemoteAfterMove" \in Deviations /\ cfg.reneg = "moved" /\ round = 5 /\ s = RSide
+          /\ (IF OSide = "A" THEN cfg.latchingA ELSE cfg.latchingB))
     /\ rtpGot' = [rtpGot EXCEPT ![s] = TRUE]
     /\ UNCHANGED <<cfg, sig, ldesc, rdesc, ice, role, dtls, keys, sctp, chan, peer, dcGot, round>>
 
@@ -206,8 +218,6 @@ Delivered1 == /\ \A s \in Sides : peer[s] = "Connected"
               /\ HasDc => \A s \in Sides : dcGot[s]
               /\ HasMedia => \A s \in Sides : rtpGot[s]
 
-RSide == IF cfg.reneg = "offerer" THEN Off ELSE Ans
-OSide == Other(RSide)
 
 RenegLocalOffer ==
     /\ cfg.reneg # "none" /\ round = 1 /\ \A s \in Sides : peer[s] = "Connected"
